@@ -65,6 +65,9 @@ def _other_cfg(r):
     sc = workloads.c09_real(r)
     cfg = sc['config']
     cfg['hooks'] = ['LogSolution']
+    for name, p in cfg['cc']:
+        if name.startswith('Adaptivity'):
+            p.setdefault('dt_min', cfg['level']['dt'] / 256)
     return cfg
 
 
@@ -146,6 +149,8 @@ def _kill_hook():
                 _KILL['count'] += 1
                 if _KILL['count'] == _KILL['at']:
                     raise UserAbort(f'aborted by a user hook at post_step number {_KILL["at"]}')
+                if _KILL['count'] > 4000:
+                    raise UserAbort('more than 4000 steps: adaptive run in permanent recovery, aborted identically in the reference')
 
         _KILLHOOK.append(KillHook)
     return _KILLHOOK[0]
@@ -288,7 +293,7 @@ def execute(sc):
             _KILL['at'] = -1
             if got['exc'] == 'UserAbort':
                 res.probe('run_aborted_by_user_hook')
-                ran[cid] += 1
+            ran[cid] += 1  # aborted or not, the controller has been used
             log.add('run_abort', cid, got['exc'])
         elif name == 'run_interval':
             cid, k = op[1], op[2]
